@@ -14,7 +14,7 @@ earlier = []
 for mf in sorted(glob.glob(f"/verif/seeded/{pid}-r*/meta.json")):
     earlier.append(json.load(open(mf)).get("summary", "")[:240])
 excl = ("\n\nChanges of this kind were already produced in an earlier round; do NOT repeat them or close variations of them — find different constructs, different clauses of the property and different mechanisms:\n" + "\n".join(f"  - {e}" for e in earlier)) if (rnd and earlier) else ""
-print(f"""You are helping to evaluate a verification tool for the Python library pyhms (agh-a2s/pyhms: a Hierarchic Memetic Strategy — a tree of evolutionary sub-populations ("demes": SEA, DE, SHADE, CMA-ES, local search, LHS, Sobol) with sprouting and stop conditions). You get a private scratch git worktree of the library at {wt} (source under {wt}/pyhms, tests under {wt}/test). Work ONLY inside {wt} and /tmp/seed/out_{pid}. Never touch /repo or /verif, and never run `git commit`.
+print(f"""You are helping to evaluate a verification tool for the Python library pyhms (agh-a2s/pyhms: a Hierarchic Memetic Strategy — a tree of evolutionary sub-populations ("demes": SEA, DE, SHADE, CMA-ES, local search, LHS, Sobol) with sprouting and stop conditions). You get a private scratch git worktree of the library at {wt} (source under {wt}/pyhms, tests under {wt}/test). Work ONLY inside {wt} and {out}. Never touch /repo or /verif, and never run `git commit`.
 
 The library is supposed to satisfy this property:
 
